@@ -1146,7 +1146,25 @@ impl<'k> Gen<'k> {
                     }
                     self.push_scope(&var, bits_for(k.max_loop as u64).max(2));
                     self.loop_depth += 1;
-                    let (body, cost) = self.gen_block(depth + 1, inner_budget, false);
+                    // (generated before the body, so that it only mentions names that are
+                    // visible at any point of the body)
+                    let rebind = if k.wild && self.rng.chance(1, 5) {
+                        let cx = self.cx();
+                        Some(self.gen_expr(2, cx).0)
+                    } else {
+                        None
+                    };
+                    let (mut body, cost) = self.gen_block(depth + 1, inner_budget, false);
+                    // wild only: rebind the loop's own counter inside its body (the properties
+                    // leave the number of iterations open then, so only "no panic, every
+                    // next() returns" is judged; the body needs a direct row so that the cap
+                    // on steps and not the program ends the run)
+                    if let Some(e) = rebind {
+                        if body.iter().any(|s| matches!(s, Stmt::Row(_))) {
+                            let at = self.rng.usize(body.len() + 1);
+                            body.insert(at, Stmt::Let(var.clone(), e));
+                        }
+                    }
                     self.loop_depth -= 1;
                     self.scopes.pop();
                     spent += cost * iters;
